@@ -403,16 +403,25 @@ def session(argv):
     fileset (filling or using the cache) and ends normally, so that the atexit save happens."""
     root, template, cachefile, start, end = argv[:5]
     placeholder = json.loads(argv[5]) if len(argv) > 5 else None
+    opts = json.loads(argv[6]) if len(argv) > 6 else {}
     from typhon.files import FileSet
     with warnings.catch_warnings(record=True) as rec:
         warnings.simplefilter("always")
         kw = {} if cachefile == "-" else {"info_cache": cachefile}
+        if opts.get("init_cov"):
+            kw["time_coverage"] = opts["init_cov"]
         fs = FileSet(os.path.join(root, template), placeholder=placeholder, **kw)
         restored = show_cache(fs)
         s = None if start == "-" else dt.datetime(*json.loads(start))
         e = None if end == "-" else dt.datetime(*json.loads(end))
-        found = [{"path": os.path.relpath(i.path, root), "t0": fields(i.times[0]), "t1": fields(i.times[1]),
-                  "attr": jsonable(i.attr)} for i in fs.find(s, e, no_files_error=False)]
+        def search():
+            return [{"path": os.path.relpath(i.path, root), "t0": fields(i.times[0]), "t1": fields(i.times[1]),
+                     "attr": jsonable(i.attr)} for i in fs.find(s, e, no_files_error=False)]
+        found = search()
+        found_after = None
+        if opts.get("then_cov"):
+            fs.time_coverage = opts["then_cov"]
+            found_after = search()
         msgs = [str(w.message)[:160] for w in rec if "cache" in str(w.message).lower()]
     final = show_cache(fs)
     for c in (restored, final):
@@ -420,7 +429,7 @@ def session(argv):
             for k in ("key", "path"):
                 if isinstance(x.get(k), str):
                     x[k] = os.path.relpath(x[k], root)
-    print(json.dumps({"restored": restored, "found": found, "final": final, "warned": len(msgs), "msg": msgs[:1]}))
+    print(json.dumps({"restored": restored, "found": found, "found_after": found_after, "final": final, "warned": len(msgs), "msg": msgs[:1]}))
     sys.stdout.flush()
     # normal interpreter exit: atexit runs FileSet.save_cache
 
